@@ -16,7 +16,9 @@ harness compares with the implementation's `global_optimum`, `global_optimum_coo
 
 Not proved here (partial, tested by dense search on the implementation — see `harness/c15.py`):
 the bound clause of SixHump and both numeric clauses of Schwefel, Michalewicz (2, 5, 10), Schubert,
-GramacyLee, Synthetic1D, Synthetic2D.  Full statements kept for the record:
+GramacyLee, Synthetic1D, Synthetic2D, Synthetic5D, Synthetic10D (they need verified interval arithmetic
+for `sin`/`exp` on boxes, or an SOS certificate for the six-hump polynomial).  Full statements kept for
+the record:
 
   -- theorem sixHump_bound (x y : ℝ) (hx : -3 ≤ x ∧ x ≤ 3) (hy : -2 ≤ y ∧ y ≤ 2) : -1.0316 - 1e-3 ≤ sixHump x y
   -- theorem schwefel_bound (xs) (h : ∀ c ∈ xs, -500 ≤ c ∧ c ≤ 500) : 0 - 1e-3 ≤ schwefel xs          (n ≤ 30)
@@ -26,6 +28,7 @@ GramacyLee, Synthetic1D, Synthetic2D.  Full statements kept for the record:
   -- theorem gramacyLee_bound (x ∈ [0.5,2.5]) : -0.8690111349895 - 1e-3 ≤ gramacyLee x ; gramacyLee_at_opt
   -- theorem synthetic1D_bound (x ∈ [0,12]) : synthetic1D x ≤ 3.23 + 1e-3 ; synthetic1D_at_opt : |synthetic1D 11 - 3.23| ≤ 1e-3
   -- theorem synthetic2D_bound (x y ∈ [0,5]) : synthetic2D x y ≤ 1.21112 + 1e-3 ; synthetic2D_at_opt
+  -- theorem synthetic5D_bound (xs ∈ [0,5]^5) : ∀ v, eval .synthetic5D xs = some v → v ≤ 1.2 + 1e-3 ; _at_opt ; same for 10D
 -/
 namespace Artap.C15
 open Artap Artap.Bench
